@@ -314,11 +314,15 @@ fn pct_spell(rng: &mut Rng, s: &str, plus: bool) -> String {
 }
 
 fn gen_query(rng: &mut Rng) -> Vec<u8> {
-    let names = ["a", "b", "prefix", "X-Amz-Signature", "x-amz-signature", "Signature", "max keys", "k é", "", "z&", "q=r", "a"];
+    // incl. pairs whose order differs before and after percent-encoding (k~ / ké, zz / z{, a1 / a:, idA / id[1])
+    let names = ["a", "b", "prefix", "X-Amz-Signature", "x-amz-signature", "Signature", "max keys", "k é", "", "z&", "q=r", "a",
+                 "k~", "ké", "zz", "z{", "a1", "a:", "idA", "id[1]"];
     let n = rng.below(6);
     let mut parts = Vec::new();
+    // one time in four the names come from the tail of the list, so that a divergent pair meets
+    let narrow = rng.chance(1, 4);
     for _ in 0..n {
-        let name = rng.pick(&names);
+        let name = if narrow { rng.pick(&names[12..]) } else { rng.pick(&names) };
         let val = gen_text(rng, &KEY_UNITS, 0, 4);
         let mut p = pct_spell(rng, name, true);
         match rng.below(6) {
